@@ -57,22 +57,22 @@ def M3.spec : M3 → Metric
 
 def d (n k : Nat) : Nat := ofDec n k
 
-def wAV  : List (Int × Nat) := [(1, d 20 2), (2, d 55 2), (3, d 62 2), (4, d 85 2)]
-def wAC  : List (Int × Nat) := [(1, d 44 2), (2, d 77 2)]
-def wPRU : List (Int × Nat) := [(1, d 27 2), (2, d 62 2), (3, d 85 2)]
-def wPRC : List (Int × Nat) := [(1, d 50 2), (2, d 68 2), (3, d 85 2)]
-def wUI  : List (Int × Nat) := [(1, d 62 2), (2, d 85 2)]
-def wCIA : List (Int × Nat) := [(1, d 0 2), (2, d 22 2), (3, d 56 2)]
-def wE   : List (Int × Nat) := [(1, one), (2, d 91 2), (3, d 94 2), (4, d 97 2), (5, one)]
-def wRL  : List (Int × Nat) := [(1, one), (2, d 95 2), (3, d 96 2), (4, d 97 2), (5, one)]
-def wRC  : List (Int × Nat) := [(1, one), (2, d 92 2), (3, d 96 2), (4, one)]
-def wReq : List (Int × Nat) := [(1, one), (2, d 5 1), (3, one), (4, d 15 1)]
-def wMAV : List (Int × Nat) := [(1, 0), (2, d 20 2), (3, d 55 2), (4, d 62 2), (5, d 85 2)]
-def wMAC : List (Int × Nat) := [(1, 0), (2, d 44 2), (3, d 77 2)]
-def wMPRU : List (Int × Nat) := [(1, 0), (2, d 27 2), (3, d 62 2), (4, d 85 2)]
-def wMPRC : List (Int × Nat) := [(1, 0), (2, d 50 2), (3, d 68 2), (4, d 85 2)]
-def wMUI : List (Int × Nat) := [(1, 0), (2, d 62 2), (3, d 85 2)]
-def wMCIA : List (Int × Nat) := [(1, 0), (2, 0), (3, d 22 2), (4, d 56 2)]
+def wAV  : List (Int × Nat) := [(1, 0x3FC999999999999A /-20e-2-/), (2, 0x3FE199999999999A /-55e-2-/), (3, 0x3FE3D70A3D70A3D7 /-62e-2-/), (4, 0x3FEB333333333333 /-85e-2-/)]
+def wAC  : List (Int × Nat) := [(1, 0x3FDC28F5C28F5C29 /-44e-2-/), (2, 0x3FE8A3D70A3D70A4 /-77e-2-/)]
+def wPRU : List (Int × Nat) := [(1, 0x3FD147AE147AE148 /-27e-2-/), (2, 0x3FE3D70A3D70A3D7 /-62e-2-/), (3, 0x3FEB333333333333 /-85e-2-/)]
+def wPRC : List (Int × Nat) := [(1, 0x3FE0000000000000 /-50e-2-/), (2, 0x3FE5C28F5C28F5C3 /-68e-2-/), (3, 0x3FEB333333333333 /-85e-2-/)]
+def wUI  : List (Int × Nat) := [(1, 0x3FE3D70A3D70A3D7 /-62e-2-/), (2, 0x3FEB333333333333 /-85e-2-/)]
+def wCIA : List (Int × Nat) := [(1, 0x0000000000000000 /-0e-2-/), (2, 0x3FCC28F5C28F5C29 /-22e-2-/), (3, 0x3FE1EB851EB851EC /-56e-2-/)]
+def wE   : List (Int × Nat) := [(1, one), (2, 0x3FED1EB851EB851F /-91e-2-/), (3, 0x3FEE147AE147AE14 /-94e-2-/), (4, 0x3FEF0A3D70A3D70A /-97e-2-/), (5, one)]
+def wRL  : List (Int × Nat) := [(1, one), (2, 0x3FEE666666666666 /-95e-2-/), (3, 0x3FEEB851EB851EB8 /-96e-2-/), (4, 0x3FEF0A3D70A3D70A /-97e-2-/), (5, one)]
+def wRC  : List (Int × Nat) := [(1, one), (2, 0x3FED70A3D70A3D71 /-92e-2-/), (3, 0x3FEEB851EB851EB8 /-96e-2-/), (4, one)]
+def wReq : List (Int × Nat) := [(1, one), (2, 0x3FE0000000000000 /-5e-1-/), (3, one), (4, 0x3FF8000000000000 /-15e-1-/)]
+def wMAV : List (Int × Nat) := [(1, 0), (2, 0x3FC999999999999A /-20e-2-/), (3, 0x3FE199999999999A /-55e-2-/), (4, 0x3FE3D70A3D70A3D7 /-62e-2-/), (5, 0x3FEB333333333333 /-85e-2-/)]
+def wMAC : List (Int × Nat) := [(1, 0), (2, 0x3FDC28F5C28F5C29 /-44e-2-/), (3, 0x3FE8A3D70A3D70A4 /-77e-2-/)]
+def wMPRU : List (Int × Nat) := [(1, 0), (2, 0x3FD147AE147AE148 /-27e-2-/), (3, 0x3FE3D70A3D70A3D7 /-62e-2-/), (4, 0x3FEB333333333333 /-85e-2-/)]
+def wMPRC : List (Int × Nat) := [(1, 0), (2, 0x3FE0000000000000 /-50e-2-/), (3, 0x3FE5C28F5C28F5C3 /-68e-2-/), (4, 0x3FEB333333333333 /-85e-2-/)]
+def wMUI : List (Int × Nat) := [(1, 0), (2, 0x3FE3D70A3D70A3D7 /-62e-2-/), (3, 0x3FEB333333333333 /-85e-2-/)]
+def wMCIA : List (Int × Nat) := [(1, 0), (2, 0), (3, 0x3FCC28F5C28F5C29 /-22e-2-/), (4, 0x3FE1EB851EB851EC /-56e-2-/)]
 
 /-- `Value()` of the metrics whose weight depends on nothing else -/
 def value0 : M3 → Int → Nat
@@ -255,19 +255,19 @@ def encode : Level → Obj3 → Bytes × Option Err
 
 /-- `roundUp` of `misc.go` -/
 def roundUp (x : Nat) : Nat :=
-  cbv (round (mul x (ofNat 100000))) fun i =>
-  if (toInt i).tmod 10000 = 0 then div i (ofNat 100000)
-  else div (add (floor (div i (ofNat 10000))) one) ten
+  cbv (round (mul x c1e5)) fun i =>
+  if (toInt i).tmod 10000 = 0 then div i c1e5
+  else div (add (floor (div i c1e4)) one) ten
 
-def c642 : Nat := d 642 2
-def c752 : Nat := d 752 2
-def c0029 : Nat := d 29 3
-def c325 : Nat := d 325 2
-def c002 : Nat := d 2 2
-def c822 : Nat := d 822 2
-def c108 : Nat := d 108 2
-def c0915 : Nat := d 915 3
-def c09731 : Nat := d 9731 4
+def c642 : Nat := 0x4019AE147AE147AE /-642e-2-/
+def c752 : Nat := 0x401E147AE147AE14 /-752e-2-/
+def c0029 : Nat := 0x3F9DB22D0E560419 /-29e-3-/
+def c325 : Nat := 0x400A000000000000 /-325e-2-/
+def c002 : Nat := 0x3F947AE147AE147B /-2e-2-/
+def c822 : Nat := 0x402070A3D70A3D71 /-822e-2-/
+def c108 : Nat := 0x3FF147AE147AE148 /-108e-2-/
+def c0915 : Nat := 0x3FED47AE147AE148 /-915e-3-/
+def c09731 : Nat := 0x3FEF23A29C779A6B /-9731e-4-/
 
 /-! The score arithmetic is written as a composition of small "core" functions over the
     looked-up weights, so that the proofs can evaluate it stage by stage. -/
@@ -349,10 +349,10 @@ def score : Level → Obj3 → Nat
 /-- `severity(score)` of `misc.go`: 0 Unknown, 1 None, 2 Low, 3 Medium, 4 High, 5 Critical -/
 def severityF (x : Nat) : Int :=
   if le x 0 then 1
-  else if lt 0 x && lt x (ofNat 4) then 2
-  else if le (ofNat 4) x && lt x (ofNat 7) then 3
-  else if le (ofNat 7) x && lt x (ofNat 9) then 4
-  else if le (ofNat 9) x then 5
+  else if lt 0 x && lt x four then 2
+  else if le four x && lt x seven then 3
+  else if le seven x && lt x nine then 4
+  else if le nine x then 5
   else 0
 
 def severity (L : Level) (o : Obj3) : Int := severityF (score L o)
